@@ -46,6 +46,7 @@ inductive FE where
   | lit (n : Int) (d : Nat)
   | nan
   | inf
+  | pi
   | var (v : String)
   | ofInt (e : IE)
   | ld1 (arr : String) (i : IE)
@@ -185,6 +186,7 @@ def FE.eval (s : State F) : FE → F
   | .lit n d => Fl.lit n d
   | .nan => Fl.nan
   | .inf => Fl.div (Fl.lit 1 1) (Fl.lit 0 1)
+  | .pi => Fl.mul (Fl.lit 4 1) (Fl.atan (Fl.lit 1 1))
   | .var v => s.fenv v
   | .ofInt e => Fl.lit (e.eval s) 1
   | .ld1 a i => (s.fa a).getD (off1 (s.shp a) (i.eval s)) Fl.nan
